@@ -21,11 +21,14 @@ def funit(src, config='host'):
 # ------------------------------------------------------------------ site selectors
 class Call:
     """result of each direct call to `callee` inside the function (one obligation per site)"""
-    def __init__(self, callee, pred=None, together=False):
-        self.callee, self.pred, self.together = callee, pred, together
+    def __init__(self, callee, pred=None, together=False, nth=None):
+        self.callee, self.pred, self.together, self.nth = callee, pred, together, nth
 
     def sites(self, U, fname):
-        return [('call %s#%d' % (self.callee, k), i) for k, i in enumerate(U.call_sites(fname, callee=self.callee, pred=self.pred))]
+        r = [('call %s#%d' % (self.callee, k), i) for k, i in enumerate(U.call_sites(fname, callee=self.callee, pred=self.pred))]
+        if self.nth is not None:
+            r = r[self.nth:self.nth + 1] if self.nth >= 0 else r[self.nth:][:1]
+        return r
 
     def __str__(self):
         return self.callee + '()'
